@@ -31,7 +31,7 @@ def split_value(value: str, offset=0):
             elif scanner.eat(Chars.RightRound):
                 expression -= 1
             elif not literal(scanner):
-                scanner.pos += 1
+                scanner.next()
 
     if start != -1 and start != scanner.pos:
         result.append((offset + start, offset + scanner.pos))
